@@ -74,6 +74,8 @@ def run(tier, seed):
     loader.load()
     from . import typing_common as tc
     tc.mc_structure(run, "C04", geoms_quick=(1, 2, 3))
+    if not q:
+        run.model_check("MC_Structure", "MC_Structure_C04_g6_s1.cfg", timeout=3600)   # growth: a recognition site with an ambiguity code
     recipes = generic_recipes(rng, q) + kit_recipes(rng, q)
     # the plasmids of the embedded registries, typed by the class their registry assigns (thorough: all 362, and
     # also by the signature-free class of the same enzyme, at a second origin)
